@@ -71,22 +71,24 @@ def compute_dense_tile_occupancy(
 ):
     result = 1
     for index_expr in projection_expr.values():
-        subs = {
-            s: rank_variable_shapes[s.name] - 1
-            for s in index_expr.free_symbols
-            if s.name in rank_variable_shapes
-        }
-        result = result * ((index_expr.xreplace(subs) if subs else index_expr) + 1)
+        result = result * compute_rank_occupancy(index_expr, rank_variable_shapes)
     return result
 
 
 def compute_rank_occupancy(projection_expr: sympy.Expr, rank_variable_shapes: dict):
-    subs = {
+    """
+    Extent of a rank index: its value at the last point of the tile minus its value at
+    the first point (all rank variables 0), plus one. Subtracting the value at the
+    first point keeps constant terms of the projection (e.g. the 1 in "p + r + 1") from
+    being counted as extent.
+    """
+    last = {
         s: rank_variable_shapes[s.name] - 1
         for s in projection_expr.free_symbols
         if s.name in rank_variable_shapes
     }
-    return (projection_expr.xreplace(subs) if subs else projection_expr) + 1
+    first = {s: 0 for s in last}
+    return projection_expr.xreplace(last) - projection_expr.xreplace(first) + 1
 
 
 def get_stride_and_halo_of_einsum(
